@@ -80,7 +80,7 @@ def main(argv=None) -> int:
     if tier == "thorough" and code == 0:
         from . import selftest
 
-        code = selftest.main(a.jobs, only=a.prop.upper())
+        code = selftest.main(a.jobs, only=a.prop.upper(), strict=False)
         # record what the both-ways self-test covered in this property's evidence
         import json
         import pathlib
